@@ -92,6 +92,9 @@ type scEngine struct {
 	// because such a test was explored both ways, the argument may well be
 	// validated in a form the analysis does not interpret -- no verdict.
 	undecidedOnSubject []string
+	// assumeReject: second pass -- every validation-shaped test of the subject
+	// that the oracle cannot evaluate is assumed to reject the argument
+	assumeReject bool
 	// failure classification for functions without error result
 	failConst map[*ssa.Function]func(*ssa.Return) bool
 }
@@ -729,6 +732,26 @@ func (c *simCtx) oracleCmp(b *ssa.BinOp) (bool, bool) {
 				}
 			}
 		}
+	case scParseFail:
+		// the offending ID has the number of fields the function expects (only
+		// their content is wrong): arity tests pass
+		if b.Op == token.EQL || b.Op == token.NEQ {
+			for _, pr := range [][2]ssa.Value{{b.X, b.Y}, {b.Y, b.X}} {
+				if _, isK := c.intConstOf(pr[1]); !isK {
+					continue
+				}
+				cc, ok := resolve(pr[0]).(*ssa.Call)
+				if !ok {
+					continue
+				}
+				if builtinName(cc) == "len" && c.splitOfSubject(cc.Call.Args[0]) {
+					return b.Op == token.EQL, true
+				}
+				if calleeIs(cc, "strings", "Count") && c.isSubject(cc.Call.Args[0]) {
+					return b.Op == token.EQL, true
+				}
+			}
+		}
 	case scPairRel:
 		if c.sc.Acc != nil {
 			ax, ay := c.getterOfBase(b.X), c.getterOfBase(b.Y)
@@ -1026,7 +1049,7 @@ func (c *simCtx) boolResultOf(call *ssa.Call, idx int) (bool, bool) {
 // alwaysFails: under the scenario no success return of g is reachable (and,
 // for arity scenarios, no constant index into the split is reachable).
 func (e *scEngine) alwaysFails(g *ssa.Function, sc scenario, depth int) bool {
-	key := fmt.Sprintf("%p/%v", g, sc)
+	key := fmt.Sprintf("%p/%v/%v", g, sc, e.assumeReject)
 	switch e.memo[key] {
 	case 1:
 		return true
@@ -1231,8 +1254,16 @@ func (c *simCtx) explore(start *ssa.BasicBlock, stop map[*ssa.BasicBlock]bool) m
 					}
 					return
 				}
-				if c.mentionsSubject(i.Cond, 0) {
-					c.e.undecidedOnSubject = append(c.e.undecidedOnSubject, shortInstr(i)+" in "+c.e.w.FuncName(c.f))
+				if c.mentionsSubject(i.Cond, 0) && !c.evaluable(i.Cond) {
+					if fs := c.failingSides(b); len(fs) > 0 {
+						c.e.undecidedOnSubject = append(c.e.undecidedOnSubject, shortInstr(i)+" in "+c.e.w.FuncName(c.f))
+						if c.e.assumeReject {
+							for _, s := range fs {
+								walk(s, b)
+							}
+							return
+						}
+					}
 				}
 			}
 			for _, s := range b.Succs {
@@ -1436,6 +1467,86 @@ func (c *simCtx) mentionsSubject(v ssa.Value, depth int) bool {
 		if x.Call.IsInvoke() {
 			return c.mentionsSubject(x.Call.Value, depth+1)
 		}
+	}
+	return false
+}
+
+// failingSides: the successors of the branch that lead to failure returns
+// only (the branch then has the shape of a validation, as opposed to a loop
+// bound or a case distinction of the computation).
+func (c *simCtx) failingSides(b *ssa.BasicBlock) []*ssa.BasicBlock {
+	var out []*ssa.BasicBlock
+	for _, s := range b.Succs {
+		reach := reachableFrom(s, nil)
+		any, all := false, true
+		for _, ret := range returnsOf(c.f) {
+			if reach[ret.Block()] {
+				any = true
+				if !c.e.isFailureReturn(c.f, ret) {
+					all = false
+				}
+			}
+		}
+		if any && all {
+			out = append(out, s)
+		}
+	}
+	return out
+}
+
+// evaluable: the condition is a comparison of arithmetic over the subject,
+// constants and quantities that do not depend on the subject (other
+// parameters, their getters, calls on them): its outcome then really depends
+// on the data, it is not an unrecognised validation idiom.
+func (c *simCtx) evaluable(cond ssa.Value) bool {
+	if c.sc.Kind != scRegion && c.sc.Kind != scPairRel {
+		return false
+	}
+	b, ok := resolve(cond).(*ssa.BinOp)
+	if !ok {
+		return false
+	}
+	switch b.Op {
+	case token.LSS, token.LEQ, token.GTR, token.GEQ, token.EQL, token.NEQ:
+	default:
+		return false
+	}
+	return c.arith(b.X, 0) && c.arith(b.Y, 0)
+}
+
+func (c *simCtx) arith(v ssa.Value, depth int) bool {
+	if depth > 8 {
+		return false
+	}
+	if cv, ok := v.(*ssa.Convert); ok {
+		return c.arith(cv.X, depth+1)
+	}
+	v = resolve(v)
+	if _, _, ok := c.regionOf(v); ok {
+		return true
+	}
+	if !c.mentionsSubject(v, 0) {
+		// independent of the subject: an arbitrary but fixed quantity
+		b, isB := v.Type().Underlying().(*types.Basic)
+		return isB && b.Info()&types.IsNumeric != 0
+	}
+	switch x := v.(type) {
+	case *ssa.BinOp:
+		switch x.Op {
+		case token.ADD, token.SUB, token.MUL:
+			return c.arith(x.X, depth+1) && c.arith(x.Y, depth+1)
+		}
+	case *ssa.UnOp:
+		if x.Op == token.SUB {
+			return c.arith(x.X, depth+1)
+		}
+	case *ssa.Phi:
+		for _, e := range x.Edges {
+			if !c.arith(e, depth+1) {
+				return false
+			}
+		}
+		return true
 	}
 	return false
 }
